@@ -61,6 +61,11 @@ def build_doc(d) -> dict:
     if d.get("twin"):
         body = {"required": True, "content": {"application/json": {"schema": {"type": "object", "properties": {"n": {"type": "integer", "minimum": 0, "maximum": 3}}, "required": ["n"], "additionalProperties": False}}}}
         paths["/tw"] = {"post": {"requestBody": body, "responses": {"200": {"description": "ok"}}}, "put": {"requestBody": body, "responses": {"200": {"description": "ok"}}}}
+        # the same, with an input space far larger than max_examples (so that a replayed example is visible in the multiset)
+        wide = {"required": True, "content": {"application/json": {"schema": {"type": "object", "properties": {"n": {"type": "integer", "minimum": 0, "maximum": 100000}}, "required": ["n"], "additionalProperties": False}}}}
+        # (the bodies differ: with one seed twins with equal bodies draw equal sequences, and a replayed example would be one of them)
+        other = {"required": True, "content": {"application/json": {"schema": {"type": "object", "properties": {"k": {"type": "integer", "minimum": 5, "maximum": 90000}, "flag": {"type": "boolean"}}, "required": ["k", "flag"], "additionalProperties": False}}}}
+        paths["/tv"] = {"post": {"requestBody": wide, "responses": {"200": {"description": "ok"}}}, "put": {"requestBody": other, "responses": {"200": {"description": "ok"}}}}
     if d["links"]:
         paths["/c"] = {"post": {"operationId": "c", "requestBody": {"required": True, "content": {"application/json": {"schema": {"type": "object", "properties": {"n": {"type": "integer"}}, "required": ["n"]}}}},
                                 "responses": {"201": {"description": "ok", "links": {"l": {"operationId": "g", "parameters": {"id": "$response.body#/id"}}}}}}}
@@ -73,16 +78,21 @@ def make_script(d):
 
     from vfw.harness import loopback
 
-    slow = {"done": False}
+    slow: dict = {}
 
     def script(req, ordinal):
         if req.path == "/c":
             return loopback.json_reply(201, {"id": 7})
         if req.path == "/tw" and req.method == "POST" and d.get("tw_fail") and b'"n": 3' in req.body.replace(b'"n":3', b'"n": 3'):
             return loopback.json_reply(500, {"e": "n=3"})
-        if req.path == "/tw" and req.method == "POST" and not slow["done"]:
-            # same answer, later: with several workers the sibling operation overtakes this one
-            slow["done"] = True
+        if req.path == "/tv" and req.method == "POST" and d.get("tw_fail"):
+            try:
+                if json.loads(req.body)["n"] >= 1000:
+                    return loopback.json_reply(500, {"e": "n>=1000"})
+            except Exception:  # noqa: BLE001
+                pass
+        if req.path in ("/tw", "/tv") and req.method == "POST" and not slow.get(req.path):
+            slow[req.path] = True
             reply = loopback.json_reply(200, {"id": 7})
             reply.sleep = 0.4
             return reply
